@@ -614,9 +614,11 @@ func (c *Collection) withNewCas(fn func(txn *sql.Tx, newCas CAS) (*event, error)
 		if err != nil {
 			return err
 		}
+		verifPoint("cas.between")
 		return c.setLastCas(txn, newCas)
 	})
 	if err == nil && e != nil {
+		verifPoint("event.prepost")
 		c.postNewEvent(e)
 	}
 	return err
